@@ -424,6 +424,36 @@ def u_builder_chunk(ip):
     c.notes.append(f"slice lines of build(): {lines}")
 
 
+def builder_chunk_n(n):
+    @unit(f"C16.builder_chunk.n{n}", "C16", [f"{BUILDER}::EngineBuilder.build"], assumptions=[
+        "slice: only the statements of build() from `epochs = ...` to `jit_duration = ...` are executed",
+        f"schedule of exactly {n} epochs with symbolic type / duration / thinning (any accepted schedule of that length); the statement for every length is C16.builder_chunk"])
+    def u(ip, n=n):
+        """for every accepted schedule of this length the JIT chunk length computed by build() is >= 1 and divides the duration of EVERY non-initial
+        epoch (whatever Python expression selects the durations: comprehensions with conditions are executed per element)."""
+        c = ip.ctx
+        key = f"{BUILDER}::EngineBuilder.build"
+        acc = []
+        for i in range(n):
+            cfg = sym_config(ip, f"c{i}")
+            c.witness(f"c{i}", cfg)
+            c.assume(valid_ext_list(acc, cfg))
+            acc.append(cfg)
+        mgr = new_obj(ip, f"{EPOCH}::EpochManager", _configs=list(acc))
+        b = new_obj(ip, f"{BUILDER}::EngineBuilder", _epochs=mgr)
+        c.cover("pre")
+        env, lines, sig = exec_slice(ip, key, {}, assigns("epochs"), assigns("jit_duration"), self_obj=b)
+        g = env.vars["jit_duration"]
+        for i in range(1, n):
+            d = acc[i].f["duration"]
+            c.oblige(f"chunk_positive_and_divides_duration_of_epoch_{i}", And(g >= 1, d % g == 0) if is_z3(g) or is_z3(d) else (g >= 1 and d % g == 0))
+    return u
+
+
+for _n in (2, 3, 4):
+    builder_chunk_n(_n)
+
+
 @unit("C16.builder_epochs", "C16", [f"{BUILDER}::EngineBuilder.set_duration", f"{BUILDER}::EngineBuilder.set_epochs", f"{BUILDER}::EngineBuilder.epochs.fget"],
       summaries=[f"{WARMUP}::stan_epochs (C16.stan_epochs)", f"{EPOCH}::EpochManager.__init__ (C16.init)"])
 def u_builder_epochs(ip):
@@ -459,3 +489,7 @@ from contracts.c10 import build_whole_unit  # noqa: E402
 
 build_whole_unit("C16.build_end_to_end", "C16", "A")
 build_whole_unit("C16.build_end_to_end.variant_b", "C16", "B")
+
+from contracts.c10 import rebuild_unit  # noqa: E402
+
+rebuild_unit("C16.builder_reused_after_schedule_change", "C16")
